@@ -28,7 +28,9 @@ RULE = (
     "optional redundant mid-edge vertices) and 1-4 segments whose end points are half-integer lattice points of the "
     "bounding box +-1, polygon vertices, edge midpoints, or chosen so that the segment passes through a vertex or "
     "along an edge; optional tag rows; or (b) a convex lattice polyhedron (hull of a tetrahedron / box plus <=4 "
-    "lattice points, polygonal faces) and 1-2 convex planar polygons o + f*(a*u + b*w) on the quarter-integer lattice "
+    "lattice points; one polygon per planar facet, or - in a forced class - facets fan-triangulated / cut into two coplanar "
+    "polygons, sides in shuffled order with random orientation and cyclic shift, so that the clipped polygon gets 1-4 "
+    "redundant collinear nodes) and 1-2 convex planar polygons o + f*(a*u + b*w) on the quarter-integer lattice "
     "(origin near the polyhedron, integer in-plane vectors, (a,b) from an integer convex polygon, f in 1/4..2); exact "
     "contact classes (vertex on boundary, edge in a face plane, plane through vertex / edge, edge-edge contacts) are "
     "labelled and kept in the domain. Oracle: exact (Fraction) parameter intervals of the "
@@ -53,8 +55,9 @@ LEVEL_NOTE = ("Coordinates are half-integers, so contacts are exact and everythi
               "drops them on purpose). Finds violations, does not prove absence.")
 DESIGN_REF = "DESIGN.md section 4, C44"
 ASSUMPTIONS = [
-    "clip polygons are simple with non-zero area; clip polyhedra are convex, closed, with non-empty interior and "
-    "one polygon per planar facet",
+    "clip polygons are simple with non-zero area; clip polyhedra are convex, closed, with non-empty interior; their "
+    "planar facets are given as one polygon or as several coplanar polygons / triangles without T-junctions",
+    "redundant collinear nodes on the boundary of a returned polygon are accepted but not demanded (docstring is silent)",
     "segments have positive length; clipped polygons are convex, planar, with non-zero area",
     "cases with a polygon coplanar with a facet of the polyhedron are skipped (counted as pp-skipped-coplanar)",
     "returned coordinates are compared with tolerance 1e-9 (segments) / 1e-7 (polygons; the function merges points "
@@ -62,7 +65,7 @@ ASSUMPTIONS = [
 ]
 REQUIRED = {"lines": 0.3, "polys": 0.15, "poly-convex": 0.05, "poly-star": 0.05, "poly-hist": 0.05,
             "seg-inside": 0.03, "seg-outside": 0.03, "seg-cut": 0.1, "seg-multi-piece": 0.01, "seg-boundary-part": 0.02,
-            "seg-point-contact": 0.02, "pp-inside": 0.003, "pp-outside": 0.02, "pp-cut": 0.05, "pp-general-position": 0.05,
+            "seg-point-contact": 0.02, "polyh-coplanar-sides": 0.05, "hanging>=2": 0.01, "pp-inside": 0.003, "pp-outside": 0.02, "pp-cut": 0.05, "pp-general-position": 0.05,
             "pp-contact": 0.03}
 
 _int3 = st.lists(st.integers(-3, 3), min_size=3, max_size=3)
@@ -108,11 +111,12 @@ _SMALL_AB = [
 
 
 @st.composite
-def _planar_polygon(draw, pts):
+def _planar_polygon(draw, pts, through=False):
     """Convex planar polygon in quadrupled coordinates (SC = 4): o4 + f (a u + b w), f in {1, 2, 4, 8}; the
     origin is a quarter-integer point near the polyhedron (mean of four of its points plus an offset)."""
     idx = draw(st.lists(st.integers(0, len(pts) - 1), min_size=4, max_size=4))
-    off = draw(st.lists(st.sampled_from([0, 0, 0, -1, 1, -2, 2, -4, 4, -10, 10]), min_size=3, max_size=3))
+    off = draw(st.lists(st.sampled_from([0, 0, 0, -1, 1, -2, 2] if through else [0, 0, 0, -1, 1, -2, 2, -4, 4, -10, 10]),
+                        min_size=3, max_size=3))
     o2 = [sum(pts[i][k] for i in idx) + off[k] for k in range(3)]
     small = st.integers(-1, 1) if draw(st.booleans()) else st.integers(-2, 2)
     u = draw(st.lists(small, min_size=3, max_size=3))
@@ -123,11 +127,17 @@ def _planar_polygon(draw, pts):
         k = next(i for i in range(3) if u[i] != 0)
         w = [0, 0, 0]
         w[(k + 1) % 3] = draw(st.sampled_from([-1, 1, 2]))
-    if draw(st.booleans()):
+    if through:
+        # a large polygon around the middle of the polyhedron: cuts through several sides
+        ab = draw(st.sampled_from([[[-2, -2], [2, -2], [2, 2], [-2, 2]], [[-3, -2], [3, -2], [0, 3]],
+                                   [[-2, -1], [0, -3], [2, -1], [2, 2], [-2, 2]]]))
+        f = draw(st.sampled_from([4, 8, 8]))
+    elif draw(st.booleans()):
         ab = draw(st.sampled_from(_SMALL_AB))
+        f = draw(st.sampled_from([1, 1, 2, 2, 4, 4, 8]))
     else:
         ab = draw(polys.polygon(kinds=("convex",), max_extra=3, allow_hang=False))["v"]
-    f = draw(st.sampled_from([1, 1, 2, 2, 4, 4, 8]))
+        f = draw(st.sampled_from([1, 1, 2, 2, 4, 4, 8]))
     verts = [[o2[k] + f * (a * u[k] + b * w[k]) for k in range(3)] for a, b in ab]
     if draw(st.booleans()):
         verts = verts[::-1]
@@ -145,9 +155,13 @@ def _spec(draw):
         return {"fn": fn, "poly": P, "segs": segs,
                 "tags": [draw(st.lists(st.integers(0, 9), min_size=ns, max_size=ns)) for _ in range(ntag)],
                 "rows3": draw(st.booleans()), "perm": list(draw(st.permutations(list(range(2 * ns)))))}
-    H = draw(polys.polyhedron_points(max_extra=4))
-    return {"fn": fn, "pts": H["pts"], "polygons": draw(st.lists(_planar_polygon(H["pts"]), min_size=1, max_size=2)),
-            "mask": draw(st.integers(0, 2 ** 20 - 1)), "as_array": draw(st.booleans())}
+    split = draw(st.one_of(st.just(0), st.integers(1, 2 ** 24 - 1)))
+    H = draw(polys.polyhedron_points(max_extra=4 if not split else 2, prefer_box=bool(split)))
+    through = bool(split) and draw(st.booleans())
+    return {"fn": fn, "pts": H["pts"],
+            "polygons": draw(st.lists(_planar_polygon(H["pts"], through), min_size=1, max_size=2)),
+            "mask": draw(st.integers(0, 2 ** 20 - 1)), "as_array": draw(st.booleans()),
+            "split": split, "shuffle": draw(st.integers(0, 10 ** 6))}
 
 
 def strategy(tier):
@@ -344,21 +358,71 @@ def _merge(iv, tol):
     return out
 
 
-def _facets2(s):
-    """Hull facets in scaled (x SC) coordinates and the face arrays in real coordinates."""
+def _lcg(seed):
+    """Deterministic pseudo-random integers from the spec (no RNG object)."""
+    x = (seed * 2654435761 + 12345) % (2 ** 32) or 1
+
+    def nxt():
+        nonlocal x
+        x = (1103515245 * x + 12345) % (2 ** 31)
+        return x >> 8
+
+    return nxt
+
+
+def _sides(s):
+    """(facets, sides, cuts): exact hull facets (scaled x SC), the sides handed to porepy as lists of scaled integer
+    vertices, and the internal cuts (pairs of vertices) between coplanar neighbouring sides.
+
+    Without "split" every planar facet is one side.  With "split" != 0 each facet with >= 4 vertices is, depending on
+    two bits of the mask, left whole, fan-triangulated from a vertex, or cut along one diagonal into two polygons;
+    the sides are then put in pseudo-random order, each with pseudo-random orientation and cyclic shift."""
     pts2 = [tuple(SC * c for c in p) for p in s["pts"]]
     if ep.affine_rank(pts2) != 3:
         raise HarnessError("polyhedron points are not of rank 3")
     facets = ep.hull3(pts2)
-    faces = []
+    split = s.get("split", 0)
+    sides, cuts = [], []
     for i, f in enumerate(facets):
         t = list(f["verts"])
         if (s["mask"] >> (i % 20)) & 1:
             t = t[::-1]
         r = (s["mask"] >> ((i + 7) % 20)) % len(t)
         t = t[r:] + t[:r]
-        faces.append(np.array(t, dtype=float).T / SC)
-    return facets, faces
+        mode = (split >> (2 * (i % 10))) & 3 if split else 0
+        n = len(t)
+        if n >= 4 and mode in (1, 2):
+            for k in range(1, n - 1):
+                sides.append([t[0], t[k], t[k + 1]])
+                if k >= 2:
+                    cuts.append((t[0], t[k]))
+        elif n >= 4 and mode == 3:
+            j = 2 + (split >> 20) % (n - 3)
+            sides.append(t[: j + 1])
+            sides.append(t[j:] + [t[0]])
+            cuts.append((t[0], t[j]))
+        else:
+            sides.append(t)
+    if split:
+        nxt = _lcg(s.get("shuffle", 0))
+        out = []
+        for t in sides:
+            k = nxt() % (2 * len(t))
+            t = t[k % len(t):] + t[:k % len(t)]
+            if k >= len(t):
+                t = t[::-1]
+            out.append(t)
+        for i in range(len(out) - 1, 0, -1):
+            j = nxt() % (i + 1)
+            out[i], out[j] = out[j], out[i]
+        sides = out
+    return facets, sides, cuts
+
+
+def _facets2(s):
+    """Hull facets in scaled (x SC) coordinates and the side arrays in real coordinates."""
+    facets, sides, _ = _sides(s)
+    return facets, [np.array(t, dtype=float).T / SC for t in sides]
 
 
 def _seg_seg_contact(a, b, c, d):
@@ -462,9 +526,33 @@ def _poly_class(facets, verts):
     return Q if has_area else [], lab, contact, area
 
 
+def _hanging_count(Q, cuts, verts):
+    """Number of points where an internal cut between coplanar sides crosses the boundary of the clipped polygon Q
+    away from its vertices (these become redundant collinear nodes of the intersection polygon)."""
+    if not Q or not cuts:
+        return 0
+    nrm = ep.cross3(ep.sub3(verts[1], verts[0]), ep.sub3(verts[2], verts[0]))
+    d0 = ep.dot3(nrm, verts[0])
+    cnt = 0
+    for a, b in cuts:
+        sa, sb = ep.dot3(nrm, a) - d0, ep.dot3(nrm, b) - d0
+        if sa * sb >= 0:
+            continue
+        t = Fraction(sa, sa - sb)
+        x = tuple(a[k] + t * (b[k] - a[k]) for k in range(3))
+        if x in Q:
+            continue
+        if any(_on_closed_segment(x, Q[i], Q[(i + 1) % len(Q)]) for i in range(len(Q))):
+            cnt += 1
+    return cnt
+
+
 def _check_polys(pp, s):
-    facets, faces = _facets2(s)
+    facets, sides, cuts = _sides(s)
+    faces = [np.array(t, dtype=float).T / SC for t in sides]
     labels = ["polys", "ph-faces-poly" if any(f.shape[1] > 3 for f in faces) else "ph-faces-tri"]
+    if cuts:
+        labels.append("polyh-coplanar-sides")
     polygons = [np.array(vs, dtype=float).T / SC for vs in s["polygons"]]
     expected = []
     for vs in s["polygons"]:
@@ -474,6 +562,11 @@ def _check_polys(pp, s):
         labels.append(lab)
         labels += contact
         labels.append("pp-contact" if contact else "pp-general-position")
+        nh = _hanging_count(Q, cuts, [tuple(v) for v in vs])
+        if nh:
+            labels.append("hanging>=2" if nh >= 2 else "hanging=1")
+            if nh >= 3:
+                labels.append("hanging>=3")
         expected.append((Q, lab, area))
     if any(lab == "pp-coplanar" for _, lab, _ in expected):
         return {"labels": labels + ["pp-skipped-coplanar"], "nontrivial": False}
